@@ -87,6 +87,10 @@ func argFor(cc *ssa.CallCommon, g *ssa.Function, j int) ssa.Value {
 }
 
 func runC08(c *Ctx) {
+	// the function that compiles the patterns is an applier of them, under whatever name (extracted body of NewExclusionRegexList)
+	if _, comp := c.c08Compiler(); comp != nil {
+		c08Appliers[comp.Name()] = true
+	}
 	c.rule("E1", "exclusion patterns are never dropped on the way down: calls between pattern-carrying functions pass values derived from the caller's patterns; no call to a pattern-less recursive operation, directly or through helpers", 12)
 	c.rule("E2", "every pattern-carrying function forwards or applies its patterns", 15)
 	c.rule("E3", "loops over directory listings iterate a list filtered with the patterns, or guard each use of the item with !IsPathExcluded", 4)
@@ -529,10 +533,59 @@ func exclusionStringParams(f *ssa.Function) []int {
 // c08CompileEach (E6): "invalid patterns are rejected". A pattern is judged valid on its own only if it is
 // compiled on its own: joining the patterns into one alternation lets syntax errors cancel across patterns
 // ("(x" and "y)" give the valid "(?:(x)|(?:y))").
+
+// c08Compiler: the function in which the patterns are compiled — NewExclusionRegexList itself, or the package-local function
+// it hands its patterns to when its own body has no compilation (an extracted body, a memoising front).
+func (c *Ctx) c08Compiler() (front, compiler *ssa.Function) {
+	front = c.fn(fsPkgRel, "NewExclusionRegexList")
+	compiler = front
+	hasCompile := func(g *ssa.Function) bool {
+		found := false
+		allInstrs(g, func(in ssa.Instruction) {
+			if cl, ok := in.(*ssa.Call); ok && strings.HasPrefix(calleeFull(&cl.Call), "regexp.") && strings.Contains(calleeFull(&cl.Call), "Compile") {
+				found = true
+			}
+		})
+		return found
+	}
+	for d := 0; d < 3 && compiler != nil && !hasCompile(compiler); d++ {
+		var next *ssa.Function
+		allInstrs(compiler, func(in ssa.Instruction) {
+			cl, ok := in.(*ssa.Call)
+			if !ok {
+				return
+			}
+			g := staticCallee(&cl.Call)
+			if g == nil || !inPkg(fsPkgRel)(g) || g.Blocks == nil || g == compiler {
+				return
+			}
+			// receives the patterns (a []string derived from the front's variadic parameter)
+			for _, a := range cl.Call.Args {
+				if sl, isSl := a.Type().Underlying().(*types.Slice); isSl {
+					if bt, isB := sl.Elem().Underlying().(*types.Basic); isB && bt.Kind() == types.String {
+						for _, l := range sources(a, deriveOpts{}) {
+							if paramIndex(compiler, l) >= 0 {
+								next = g
+							}
+						}
+					}
+				}
+			}
+		})
+		if next == nil {
+			break
+		}
+		compiler = next
+	}
+	return front, compiler
+}
+
 func (c *Ctx) c08CompileEach() {
-	f := c.fn(fsPkgRel, "NewExclusionRegexList")
+	front, f := c.c08Compiler()
+	c.FuncsSeen[fname(front)] = true
 	c.FuncsSeen[fname(f)] = true
-	key := fname(f) + "/compile-each"
+	key := fname(front) + "/compile-each"
+	c.c08Pure(front)
 	var compiles []*ssa.Call
 	isCompile := func(n string) bool {
 		return n == "regexp.Compile" || n == "regexp.MustCompile" || n == "regexp.CompilePOSIX"
@@ -608,9 +661,9 @@ func (c *Ctx) c08CompileEach() {
 // patternLoopsComplete (C08/E7, C04/N4): a pattern that is never looked at protects nothing. The loops of
 // NewExclusionRegexList must run to the end of the list: the only other way out is an error exit.
 func (c *Ctx) patternLoopsComplete(rule string) {
-	f := c.fn(fsPkgRel, "NewExclusionRegexList")
+	front, f := c.c08Compiler()
 	c.FuncsSeen[fname(f)] = true
-	key := fname(f) + "/every-pattern"
+	key := fname(front) + "/every-pattern"
 	bad := ""
 	loops := 0
 	for _, h := range f.Blocks {
@@ -669,4 +722,44 @@ func (c *Ctx) patternLoopsComplete(rule string) {
 	default:
 		c.ok(rule, key, c.pos(f.Pos()), strconv.Itoa(loops)+" loop(s) over the patterns run to the end of the list (error exits aside)")
 	}
+}
+
+// c08Pure (E10): "for any tree and any set of exclusion patterns": what a set of patterns excludes depends on that set only.
+// The compiled list is a function of the arguments of NewExclusionRegexList: on the way no package-level state is read or
+// written (a cache of compiled sets keyed by anything less than the whole set hands one set the expressions of another;
+// it would also let an invalid set through on a hit).
+func (c *Ctx) c08Pure(front *ssa.Function) {
+	c.rule("E10", "the compiled exclusion list depends on the arguments only: no package-level state is read or written on the way from NewExclusionRegexList to the compiled expressions", 1)
+	bad := ""
+	seen := map[*ssa.Function]bool{}
+	var walk func(g *ssa.Function, d int)
+	walk = func(g *ssa.Function, d int) {
+		if g == nil || seen[g] || d > 4 || g.Blocks == nil {
+			return
+		}
+		seen[g] = true
+		allInstrs(g, func(in ssa.Instruction) {
+			var ops []*ssa.Value
+			for _, o := range in.Operands(ops) {
+				if o == nil || *o == nil {
+					continue
+				}
+				if gl, ok := (*o).(*ssa.Global); ok && gl.Pkg != nil && strings.HasPrefix(gl.Pkg.Pkg.Path(), modPath) {
+					// error sentinels are read to build errors: no state
+					if pt, isP := gl.Type().Underlying().(*types.Pointer); isP && isErrorType(pt.Elem()) {
+						continue
+					}
+					bad = gl.Name() + " at " + c.ipos(in)
+				}
+			}
+			if ci, ok := in.(ssa.CallInstruction); ok {
+				if h := staticCallee(ci.Common()); h != nil && inPkg(fsPkgRel)(h) {
+					walk(h, d+1)
+				}
+			}
+		})
+	}
+	walk(front, 0)
+	c.check(bad == "", "E10", fname(front)+"/depends-on-its-arguments-only", c.pos(front.Pos()), "no package-level state between the patterns and their compiled form",
+		"the package-level variable "+bad+" is used on the way from the patterns to their compiled form: the list returned for a set of patterns can depend on earlier calls (a cache keyed by a digest or a concatenation of the patterns gives {\"qx\",\"zv\"} the expressions of {\"qxzv\"}, and lets an invalid set through on a hit)")
 }
